@@ -1,5 +1,6 @@
 """C01 — no address or prefix is ever held by two subscribers at once."""
 import verif as V
+import poolrace
 
 PROP = "C01"
 SPEC = ["Bng.Spec.C01", "Bng.Spec.C01Epoch", "Bng.Spec.C01FreeList", "Bng.Spec.C01Nexus", "Bng.Spec.C01Cluster", "Bng.Spec.C16PppoeWhole", "Bng.Spec.C01V6Construct"]
@@ -38,6 +39,7 @@ LEVEL = ("Uniqueness, in-range and idempotence are theorems over the Lean models
          "models are tied to the real Go code by differential execution of generated operation sequences, and the "
          "abstract pool monitor (the definition the refinement theorems are about) judges the real code's answers.")
 ASSUME = [
+    "concurrent callers: a burst of k concurrent Allocate calls of one subscriber (localpool, peercluster) is judged against ONE allocate (theorem burst_equals_single_allocate: under the pool's mutex a burst is a sequence of k calls, all but the first idempotent); the k goroutines are parked at the pool lock held by the harness and released together; the same workload runs a second time under the Go race detector; concurrent calls of DIFFERENT subscribers are not driven (their answers depend on the interleaving)",
     "small-scope exhaustive enumeration runs in the THOROUGH tier only (the quick tier is seeded random sequences plus the corpus); its real bounds for the free-list pools are: dhcppool all sequences of length 5 over 12 mutating ops (alloc x3 MACs, release/mark/reserve of in-pool addresses) and of length 4 over those plus 3 out-of-range and 2 read-only ops, on pools of 2 and 3 usable addresses; v6addr, v6prefix, pppoepool all alloc/release sequences over 3 keys of length 6 (2-4 units) and 7 (1-2 units); localpool the same plus length 5 over 12 ops including get/owner/stats; nexushash, nexusclient and peercluster have no exhaustive part (random only). This is narrower than the '<=8 units, <=7 operations' of the property text; the theorems, not the enumeration, cover the general case",
     "peercluster: all nodes are configured with the same peer list and the same pool network (as cmd/bng does from one set of flags); node health is set through the verif hook, the rendezvous ranking is taken from the implementation as an input of the model",
     "nexusclient: the client runs over nexus.MemoryStore; the harness waits after every operation until all watch callbacks have reached the client's caches (the in-memory store delivers them on unordered goroutines)",
@@ -49,9 +51,12 @@ ASSUME = [
     "bitmap: geometries with fewer than 2^64 units (the 2^80-unit geometry is listed as a known finding of C05)",
 ]
 
+# concurrent callers of pool.LocalPool: burst-heavy sequences on harnesses built with -race (lib/poolrace.py)
+RACE = poolrace.make(PROP, MON)
+
 
 def run(tier, seed):
-    return V.standard_check(PROP, SPEC, COMPS, LEVEL, ASSUME, tier, seed)
+    return V.standard_check(PROP, SPEC, COMPS, LEVEL, ASSUME, tier, seed, post=RACE)
 
 
 def replay(path):
